@@ -8,6 +8,7 @@
 #include "../../vlib/valloc.h"
 #include "../../vlib/vipc.h"
 #include <sys/wait.h>
+#include <sys/time.h>
 #include <sys/prctl.h>
 #include <sys/mman.h>
 #include <sys/stat.h>
@@ -747,6 +748,22 @@ Result run_one(const Scen &s, uint64_t k, int mode, long residual_ok = 0) {
   return r;
 }
 
+// "the call returns normally": a scenario takes milliseconds; one that has burnt NO_RETURN_CPU_S seconds of this process's own CPU time
+// (ITIMER_VIRTUAL: load and sleeping do not count) is inside a library call that spins instead of returning, e.g. on a lock that a failed
+// call left held.  One-sided: a call that blocks without burning CPU still ends as "inconclusive" at the wall-clock watchdog.
+const int NO_RETURN_CPU_S = 20;
+int g_nr_fd = -1; char g_nr_scen[96];
+void no_return_cb(int) {
+  char msg[400];
+  snprintf(msg, sizeof msg, "a library call of the scenario does not return: the process has spent %d s of CPU time inside it (scenarios take milliseconds) - a failed call left the library in a state in which a later call spins forever", NO_RETURN_CPU_S);
+  if (g_nr_fd >= 0) { dprintf(g_nr_fd, "\nVRESULT 0 1 0 no-return|%s\n", msg); _exit(1); }
+  printf("REPLAY-FAIL C18:no-return:%s: %s\n", g_nr_scen, msg); fflush(stdout); _exit(1);
+}
+void arm_no_return(int fd, const char *scen) {
+  g_nr_fd = fd; strncpy(g_nr_scen, scen, sizeof g_nr_scen - 1);
+  signal(SIGVTALRM, no_return_cb);
+  struct itimerval it; memset(&it, 0, sizeof it); it.it_value.tv_sec = NO_RETURN_CPU_S; setitimer(ITIMER_VIRTUAL, &it, NULL);
+}
 // forked execution; returns verdict ("" ok). died=true if the child was killed / sanitizer abort
 Result run_forked(const Scen &s, uint64_t k, int mode, string *child_out, long residual_ok = 0) {
   int pfd[2];
@@ -758,6 +775,7 @@ Result run_forked(const Scen &s, uint64_t k, int mode, string *child_out, long r
     close(pfd[0]);
     dup2(pfd[1], 2);
     alarm(60);
+    if (k > 0) arm_no_return(pfd[1], s.name);
     Result r = run_one(s, k, mode, residual_ok);
     dprintf(pfd[1], "\nVRESULT %llu %llu %ld %s|%s\n", (unsigned long long)r.window, (unsigned long long)r.failed, r.residual, r.klass.c_str(), r.verdict.c_str());
     _exit(r.verdict.empty() ? 0 : 1);
@@ -858,7 +876,9 @@ string run_replay(const string &text) {
   const Scen *s = find_scen(w[1]);
   if (!s) return "unknown scenario " + w[1];
   Result base = run_forked(*s, 0, 0, nullptr);
+  arm_no_return(-1, s->name);
   Result r = run_one(*s, strtoull(w[2].c_str(), 0, 10), atoi(w[3].c_str()), base.residual);
+  { struct itimerval off; memset(&off, 0, sizeof off); setitimer(ITIMER_VIRTUAL, &off, NULL); }
   if (r.verdict.empty()) return "";
   return "C18:" + r.klass + ":" + s->name + ": " + r.verdict;
 }
